@@ -313,6 +313,26 @@ func c11Source(w *run.Worker, src string, pairs bool) {
 				}) {
 					return
 				}
+				// the same after a walk that the visitor ended by panicking at that node (the caller recovers)
+				var third []parser.Node
+				if !w.Try(src, func() {
+					func() {
+						defer func() { recover() }()
+						parser.Walk(st2, func(n parser.Node) bool {
+							if n == pn {
+								panic("stop")
+							}
+							return !astx.IsNilNode(n)
+						})
+					}()
+					parser.Walk(st2, func(n parser.Node) bool { third = append(third, n); return !astx.IsNilNode(n) })
+				}) {
+					return
+				}
+				if got := sig(third); got != want {
+					w.Fail("walk:depends-on-aborted-walk:"+astx.TypeName(pn), src, fmt.Sprintf("after a walk whose visitor panicked at %s %v (recovered by the caller), a complete walk of the same tree makes %d calls; a complete walk of a fresh tree makes %d", astx.TypeName(pn), pn.Span(), len(third), len(order)), nil)
+					return
+				}
 				if got := sig(second); got != want {
 					w.Fail("walk:depends-on-earlier-walk:"+astx.TypeName(pn), src, fmt.Sprintf("after a walk that pruned at %s %v, a complete walk of the same tree visits %d nodes; a complete walk of a fresh tree visits %d", astx.TypeName(pn), pn.Span(), len(second), len(order)), nil)
 					return
